@@ -222,8 +222,6 @@ fn run_vec(s: &BufScn, st: &mut Stats) -> (Option<Violation>, Vec<Obs>) {
             if v != before {
                 return (Some(Violation::oracle("C18.failed-op-changed-contents", format!("Vec<u8> step {} {:?}: returned OutOfMemory but the contents changed", i, op))), obs);
             }
-        } else if fired {
-            return (Some(Violation::oracle("C18.vec-alloc-failure-ignored", format!("Vec<u8> step {} {:?}: an allocation failed but the operation returned Ok", i, op))), obs);
         }
         if v != model {
             return (Some(Violation::oracle("C18.contents", format!("Vec<u8> step {} {:?}: contents {} but the model holds {}", i, op, hex(&v), hex(&model)))), obs);
